@@ -173,11 +173,15 @@ class Built:
         return order, parents, outs
 
 
-def _x_arg(b, mi, X, as_int=False):
-    """X is either a list of rows (array input) or {id: rows} (mapping input); as_int: integer-typed arrays (values must be integers)."""
+def _x_arg(b, mi, X, as_int=False, rev_keys=False):
+    """X is either a list of rows (array input) or {id: rows} (mapping input); as_int: integer-typed arrays (values must be integers).
+    rev_keys: the mapping is written with its keys in reverse order (a name-keyed mapping means the same whatever order it is written in)."""
     conv = (lambda rows: fl(rows).astype(np.int64)) if as_int else fl
     if isinstance(X, dict):
-        return {b.all_nodes()[int(i)].name: conv(rows) for i, rows in X.items()}
+        items = list(X.items())
+        if rev_keys:
+            items = sorted(items, key=lambda kv: b.all_nodes()[int(kv[0])].name, reverse=True)
+        return {b.all_nodes()[int(i)].name: conv(rows) for i, rows in items}
     return conv(X)
 
 
@@ -217,7 +221,7 @@ def run_history(sc):
                             kw["shift_fb"] = o.get("shift_fb", True)
                         if o.get("return_states") is not None:
                             kw["return_states"] = o["return_states"]
-                    res = m.run(_x_arg(b, o["model"], o["X"], o.get("int_input", False)), **kw)
+                    res = m.run(_x_arg(b, o["model"], o["X"], o.get("int_input", False), o.get("rev_keys", False)), **kw)
                 else:
                     if is_model and o.get("fb"):
                         kw["forced_feedback"] = {b.all_nodes()[int(i)].name: fl([v]) for i, v in o["fb"].items()}
